@@ -175,6 +175,14 @@ def extract_blocks(
             # If form has no sub elements, return the form itself.
             if num_sub_elements == 0:
                 return form
+            if arity == 2:
+                # The trial space may have a different number of sub elements
+                # than the test space (a trial space that is not mixed is one column)
+                trial_arguments = [a for a in arguments if a.number() == 1]
+                num_trial_sub_elements = max(
+                    (a.ufl_element().num_sub_elements for a in trial_arguments), default=0
+                )
+                num_trial_sub_elements = max(num_trial_sub_elements, 1)
             forms = []
             for pi in range(num_sub_elements):
                 if arity == 1:
@@ -183,7 +191,7 @@ def extract_blocks(
                     forms.append(None if f.empty() else f)
                     continue
                 form_i: list[object | None] = []
-                for pj in range(num_sub_elements):
+                for pj in range(num_trial_sub_elements):
                     f = fs.split(form, pi, pj)
                     if f.empty():
                         form_i.append(None)
